@@ -965,6 +965,69 @@ def gen_C16(g, tier):
     return lines
 
 
+def rand_decl(r, kind="wf"):
+    """random enum declaration in protocol form; kind: wf | smallwidth | nodisc | nonint | bigdisc"""
+    n = r.choice([2, 2, 3, 4, 5, 8, 12, 16, 25, 40]) if r.random() < 0.8 else r.randrange(2, 41)
+    hi = r.choice([3, 7, 15, 31, 63, 127, 255, 255])
+    n = min(n, hi + 1, 40)
+    discs = r.sample(range(hi + 1), n)
+    if kind == "wf" and r.random() < 0.15:
+        discs[0] = 255 if 255 not in discs else discs[0]
+    free = [x for x in range(256) if x not in discs]
+    r.shuffle(free)
+    letters = list("ABCDEFGHIJKLMNOPQRSTUWXYZ")  # 'V' is reserved for generated names V<i>
+    r.shuffle(letters)
+    displays = [c for c in range(0x21, 0x7f) if chr(c) not in "'\\\"" and not chr(c).isupper()]
+    r.shuffle(displays)
+    vs = []
+    for i, d in enumerate(discs):
+        if i < len(letters) and r.random() < 0.6:
+            ident = letters[i] + r.choice(["", "x", "Masked", "1"])
+            disp = "-"
+        else:
+            ident = "V" + str(i)
+            disp = str(displays.pop())
+        if disp == "-" and r.random() < 0.15:
+            disp = str(displays.pop())
+        na = r.choice([0, 0, 0, 1, 2, 5]) if free else 0
+        alts = [free.pop() for _ in range(min(na, len(free)))]
+        fmt = r.choice("dbxu") if not (0x20 < d < 0x7f and chr(d) not in "'\\" and r.random() < 0.2) else "y"
+        vs.append([ident, f"{fmt}{d}", disp, alts])
+    mx = max(discs)
+    minw = max(mx, 0).bit_length()
+    bits = "-" if r.random() < 0.4 else str(r.randrange(minw, 9)) if minw <= 8 else "-"
+    if kind == "smallwidth" and minw >= 1:
+        bits = str(r.randrange(0, minw))
+    if kind == "nodisc":
+        vs[r.randrange(n)][1] = "-"
+    if kind == "nonint":
+        vs[r.randrange(n)][1] = r.choice(["f", "t", "n1"])
+    if kind == "bigdisc":
+        vs[r.randrange(n)][1] = "d" + str(r.choice([256, 300, 1000]))
+    toks = [bits, str(n)]
+    for ident, disc, disp, alts in vs:
+        toks += [ident, disc, disp, str(len(alts))] + [r.choice("dbx") + str(a) for a in alts]
+    return " ".join(toks)
+
+
+def gen_C17(g, tier):
+    r = g.r
+    lines = []
+    for _ in range(400 if tier == "quick" else 6000):
+        lines.append("dna derive " + rand_decl(r, "wf"))
+    for kind in ("smallwidth", "nodisc", "nonint", "bigdisc"):
+        for _ in range(40 if tier == "quick" else 400):
+            lines.append("dna derive " + rand_decl(r, kind))
+    # the documented example of the README and edge widths
+    lines.append("dna derive - 2 A d0 - 0 B d1 - 0")
+    lines.append("dna derive - 2 A d0 - 0 B d255 - 0")
+    lines.append("dna derive 8 2 A d0 - 0 B d255 - 0")
+    lines.append("dna derive - 1 A d0 - 0")
+    for m in range(256):
+        lines.append(f"dna derive - 2 A d0 - 0 B d{m} - 0" if m else "dna derive - 1 A d0 - 0")
+    return lines
+
+
 def gen_C05(g, tier):
     lines = []
     for c in CODECS:
